@@ -144,18 +144,21 @@ func Start(ds DataSource, queuedRequests chan func(), Npresamp int, Nsamples int
 	}
 	verifPoint("start:starting")
 	if err := ds.Sample(); err != nil {
+		releaseFailedStart(ds)
 		ds.SetStateInactive()
 		return err
 	}
 	verifPoint("start:sampled")
 
 	if err := ds.PrepareChannels(); err != nil {
+		releaseFailedStart(ds)
 		ds.SetStateInactive()
 		return err
 	}
 	verifPoint("start:channels")
 
 	if err := ds.PrepareRun(Npresamp, Nsamples); err != nil {
+		releaseFailedStart(ds)
 		ds.SetStateInactive()
 		return err
 	}
@@ -164,6 +167,7 @@ func Start(ds DataSource, queuedRequests chan func(), Npresamp int, Nsamples int
 	ds.RunDoneActivate() // Call RunDoneDeactivate inside CoreLoop when it returns.
 	verifPoint("start:activated")
 	if err := ds.StartRun(); err != nil {
+		releaseFailedStart(ds)
 		ds.RunDoneDeactivate()
 		return err
 	}
@@ -171,6 +175,21 @@ func Start(ds DataSource, queuedRequests chan func(), Npresamp int, Nsamples int
 
 	go CoreLoop(ds, queuedRequests)
 	return nil
+}
+
+// failedStartReleaser is implemented by sources whose Sample or StartRun step acquires hardware
+// (UDP sockets, shared-memory rings, a running DMA adapter). Normally the stop path gives it back,
+// but a Start that fails part-way never reaches the stop path.
+type failedStartReleaser interface {
+	releaseAfterFailedStart()
+}
+
+// releaseFailedStart lets the source give back whatever it acquired before Start failed, so that
+// it is left Inactive AND able to be started again.
+func releaseFailedStart(ds DataSource) {
+	if r, ok := ds.(failedStartReleaser); ok {
+		r.releaseAfterFailedStart()
+	}
 }
 
 // CoreLoop has the DataSource produce data until graceful stop.
